@@ -870,9 +870,11 @@ def model_specs(draw, **kw):
       g.new_input(shape, 'f32', dom=[0.5, 2.0] if positive else None,
                   mag=draw(st.sampled_from([0.3, 1.0, 1.0, 3.0])))
     nnodes = draw(st.integers(cfg['min_nodes'], cfg['max_nodes']))
+    if nsg >= 2 and cfg.get('empty_subgraphs', True) and draw(st.integers(0, 9)) == 0:
+      nnodes = 0   # a signature that just returns its argument(s): no operators
     # a sub-population of "hub" graphs: most operators read the first graph
     # input, so one tensor has many consumer slots (>= 9 with repeated operands)
-    hub = bool(cfg.get('hubs', True) and cfg['max_nodes'] >= 4 and draw(st.integers(0, 11)) == 0)
+    hub = bool(nnodes and cfg.get('hubs', True) and cfg['max_nodes'] >= 4 and draw(st.integers(0, 11)) == 0)
     if hub:
       nnodes = draw(st.integers(5, 12))
     for _ in range(nnodes):
@@ -914,6 +916,11 @@ def model_specs(draw, **kw):
     outs = sinks + extra
     if not outs:  # no node was applicable
       outs = [g.inputs[0]]
+    if cfg.get('passthrough', True) and g.nodes and draw(st.integers(0, 11)) == 0:
+      # the function also returns one of its float arguments unchanged
+      f32_in = [t for t in g.inputs if g.tensors[t]['dtype'] == 'f32' and t not in outs]
+      if f32_in:
+        outs.append(draw(st.sampled_from(f32_in)))
     outs = list(draw(st.permutations(outs)))
     if cfg.get('dup_outputs', True) and draw(st.integers(0, 11)) == 0:
       # a function returning one tensor under two names lists it twice
@@ -1004,6 +1011,10 @@ def features(spec):
       f.add('hub>=9_consumer_slots')
     if len(set(sg['outputs'])) < len(sg['outputs']):
       f.add('tensor_listed_twice_in_outputs')
+    if not sg['nodes']:
+      f.add('subgraph_without_operators')
+    elif set(sg['inputs']) & set(sg['outputs']):
+      f.add('input_is_also_output')
     cons = {}
     for ni, n in enumerate(sg['nodes']):
       f.add('op:' + n['op'])
